@@ -349,6 +349,22 @@ func (p *Proxy) handleConnectRequest(ctx *Context, req *http.Request, session *S
 
 		log.Debugf("martian: completed MITM for connection: %s", req.Host)
 
+		// Until the first request inside the tunnel is being read (readRequest watches for
+		// shutdown itself) no exchange is in flight on this connection: shutdown closes it
+		// instead of waiting for a client that may never send its first byte or finish its
+		// handshake.
+		idle := make(chan struct{})
+		var idleOnce sync.Once
+		endIdle := func() { idleOnce.Do(func() { close(idle) }) }
+		defer endIdle()
+		go func() {
+			select {
+			case <-p.closing:
+				conn.Close()
+			case <-idle:
+			}
+		}()
+
 		b := make([]byte, 1)
 		if _, err := brw.Read(b); err != nil {
 			log.Errorf("martian: error peeking message through CONNECT tunnel to determine type: %v", err)
@@ -369,6 +385,7 @@ func (p *Proxy) handleConnectRequest(ctx *Context, req *http.Request, session *S
 				p.mitm.HandshakeErrorCallback(req, err)
 				return err
 			}
+			endIdle()
 			if tlsconn.ConnectionState().NegotiatedProtocol == "h2" {
 				// The CONNECT exchange is over; its context must not stay retrievable for
 				// as long as the HTTP/2 session in the tunnel lasts.
@@ -398,6 +415,7 @@ func (p *Proxy) handleConnectRequest(ctx *Context, req *http.Request, session *S
 		// Prepend the previously read data to be read again by http.ReadRequest.
 		brw.Reader.Reset(io.MultiReader(bytes.NewReader(b), bytes.NewReader(buf), conn))
 		unlink(req)
+		endIdle()
 		return p.handle(ctx, conn, brw)
 	}
 
@@ -533,6 +551,19 @@ func (p *Proxy) handleConnectRequest(ctx *Context, req *http.Request, session *S
 	donec := make(chan bool, 2)
 	go copySync(cconn, activityReader{brw.Reader, touch}, donec)
 	go copySync(conn, activityReader{cconn, touch}, donec)
+
+	// Shutdown ends the tunnel. Nothing else would for as long as its two ends keep talking,
+	// and an idle one would hold up Close for a whole timeout.
+	tunnelDone := make(chan struct{})
+	defer close(tunnelDone)
+	go func() {
+		select {
+		case <-p.closing:
+			conn.Close()
+			cconn.Close()
+		case <-tunnelDone:
+		}
+	}()
 
 	log.Debugf("martian: established CONNECT tunnel, proxying traffic")
 	<-donec
